@@ -105,3 +105,9 @@ _P["assumptions"] = _P["assumptions"] + [
     "DLMF 19.11.2/19.11.4 (addition theorem of the elliptic integral of the second kind) and 19.25.9-10, 19.36.1-2 (Carlson forms and series) are the right formulas; checked numerically by quadrature only",
     "series composition / reversion modulo n^7 (C15: aux_compose_partial, aux_revert) enter the closure theorem gendirect_geninverse_series as hypotheses",
 ]
+
+# seeded round 8 (C09H): exact area on strongly eccentric ellipsoids
+PROPS["C09"]["level_note"] = PROPS["C09"].get("level_note", "") + (
+    " Added after seeded round 8: op rh_zone / relation rhumb-zone-area — S12 of an east-west course of the exact solver against the closed-form zone area "
+    "(b^2/2) dlon [sin phi/(1 - e^2 sin^2 phi) + atanh(e sin phi)/e] in long double on ellipsoids with third flattening n up to +-0.9 (relative 2e-8 + 1e-8 b^2; "
+    "at n = 0.95 the unchanged library is itself only good to 5e-8 of the zone next to the equator, no accuracy is documented there, no claim is made).")
